@@ -709,6 +709,7 @@ func init() {
 				// more than a thousand rows: every intermediate render sorts and redraws all of them; keep the number of
 				// renders small (no read latencies) so that the scenario stays affordable
 				v.LatPm, v.LatMs = 0, 0
+				v.YLatPm, v.YLatMs = 0, 0
 			}
 			// arrival order of lines is part of what must not matter
 			var shuffle []int
